@@ -17,7 +17,13 @@ GEN_DIR = os.path.join(C.BUILD, 'gen')
 
 # which kernel functions each property's theorems rest on
 ITER_MACHINES = ['IterNthVectorMut_assemble', 'IterNthVectorMut_next', 'IterNthVectorMut_next_back', 'IterNthVectorMut_size_hint',
-                 'IterVectorsMut_assemble', 'IterVectorsMut_next', 'IterVectorsMut_next_back', 'IterVectorsMut_size_hint']
+                 'IterVectorsMut_assemble', 'IterVectorsMut_next', 'IterVectorsMut_next_back', 'IterVectorsMut_size_hint',
+                 'IterVectorsMut_empty', 'IterVectorsMut_over_major_axis', 'IterVectorsMut_over_minor_axis', 'Matrix_iter_rows_mut', 'Matrix_iter_cols_mut']
+VIEWS = ['Matrix_iter_nth_major_axis_vector_unchecked', 'Matrix_iter_nth_minor_axis_vector_unchecked',
+         'Matrix_iter_nth_major_axis_vector', 'Matrix_iter_nth_minor_axis_vector',
+         'Matrix_iter_nth_major_axis_vector_unchecked_mut', 'Matrix_iter_nth_minor_axis_vector_unchecked_mut',
+         'Matrix_iter_nth_major_axis_vector_mut', 'Matrix_iter_nth_minor_axis_vector_mut',
+         'Matrix_iter_nth_row', 'Matrix_iter_nth_col', 'Matrix_iter_nth_row_mut', 'Matrix_iter_nth_col_mut']
 
 OBLIGATIONS = {
     'C03': ITER_MACHINES,
@@ -26,10 +32,10 @@ OBLIGATIONS = {
             'Matrix_shape', 'Matrix_reshape', 'Shape_new', 'Shape_nrows', 'Shape_ncols', 'Matrix_is_square', 'Matrix_ensure_square'],
     'C04': ['AxisIndex_from_index', 'AxisIndex_is_out_of_bounds', 'AxisIndex_to_flattened', 'Matrix_major', 'Matrix_minor',
             'AxisShape_major', 'AxisShape_minor', 'AxisShape_major_stride', 'AxisShape_minor_stride'],
-    'C05': ['Order_switch', 'Shape_transpose', 'AxisShape_transpose', 'AxisIndex_swap', 'AxisIndex_from_flattened', 'AxisIndex_to_flattened'],
+    'C05': ['Order_switch', 'Shape_transpose', 'AxisShape_transpose', 'AxisIndex_swap', 'AxisIndex_from_flattened', 'AxisIndex_to_flattened',
+            'Matrix_transpose', 'Matrix_switch_order', 'Matrix_switch_order_without_rearrangement', 'Matrix_set_order', 'Matrix_set_order_without_rearrangement'],
     'C06': ['AxisShape_major_stride', 'AxisShape_minor_stride', 'Matrix_major_stride', 'Matrix_minor_stride', 'Matrix_major', 'Matrix_minor',
-            'Matrix_iter_nth_major_axis_vector_unchecked', 'Matrix_iter_nth_minor_axis_vector_unchecked',
-            'Matrix_iter_nth_major_axis_vector', 'Matrix_iter_nth_minor_axis_vector'] + ITER_MACHINES,
+            ] + VIEWS + ITER_MACHINES,
     'C07': ['AxisIndex_swap', 'AxisIndex_from_flattened', 'AxisIndex_to_flattened'],
     'C08': ['Shape_size', 'Shape_try_to_axis_shape', 'Shape_to_axis_shape_unchecked', 'Matrix_check_size', 'AxisShape_size'],
     'C09': ['Shape_size', 'Shape_try_to_axis_shape', 'Shape_to_axis_shape_unchecked', 'Matrix_reshape', 'Matrix_size', 'AxisShape_size'],
